@@ -2376,6 +2376,188 @@ example :
      | [.res (some _), .res none, .res (some _)] => true
      | _ => false) = true := by decide +kernel
 
+/-! ## 7. Wave 5 — nested equations relative to the probed re-indexing mechanism; corollaries; witness -/
+
+def cfgGood : Cfg := ⟨true⟩
+
+/-- with re-cloning at every level the mechanism-parametrised model IS the nested model -/
+theorem termC_good (tm : Py) (x : Ex) : ∀ I, x.termC ⟨true⟩ tm I I = x.term tm I := by
+  induction x with
+  | num n l => intro I; rfl
+  | el e => intro I; rfl
+  | op f a b iha ihb =>
+    intro I
+    cases f with
+    | ew o => simp only [Ex.termC, Ex.term, iha, ihb]
+    | nmul => simp only [Ex.termC, Ex.term, iha, ihb]
+    | dot => simp only [Ex.termC, Ex.term, iha, ihb, if_true]
+
+theorem termI_good (c : Cfg) (h : c.reindexAll = true) (tm : Py) (x : Ex) (I : Option (List Key)) :
+    x.termI c tm I = x.term tm I := by
+  cases c with
+  | mk r => simp only at h; subst h; exact termC_good tm x I
+
+theorem expandEC_good (c : Cfg) (h : c.reindexAll = true) (tm : Py) (x : Ex) : expandEC c tm x = expandE tm x := by
+  cases x with
+  | num n l => rfl
+  | el e => rfl
+  | op f a b =>
+    simp only [expandEC, expandE, vecEntriesC, vecEntriesE, matEntriesC, matEntriesE, termI_good c h]
+
+section SemN
+open BigOperators
+variable {R : Type} [CommSemiring R]
+
+/-- **C10 for nested equations, at full strength**, relative to the probed mechanism `c`: for EVERY operand tree `x`
+(any depth, any shapes), time argument, commutative semiring and value assignment, the term of the clone of `x`
+carrying index `idx` — including every term the dot product obtains from a compound operand through
+`arrayed_term` — evaluates to the numpy entry `valD x idx`; scalar-valued trees without index to `valD x []`;
+and every entry the expansion of an equation assigns is the numpy entry of the whole tree at that index. -/
+def C10_nested_full (c : Cfg) : Prop :=
+  ∀ (R : Type) [CommSemiring R] (O : Ops R) (ρ : String → R) (σ : Nat → V R) (tm : Py) (x : Ex),
+    (∀ idx p, x.arrEl = false → x.termI c tm (some idx) = some p →
+      eval (car O ρ) σ p = .r (x.valD O ρ idx)) ∧
+    (∀ p, x.arrEl = false → x.dims = some .val → x.termI c tm none = some p →
+      eval (car O ρ) σ p = .r (x.valD O ρ [])) ∧
+    (∀ r, expandEC c tm x = some r →
+      (∀ p, r = .scalar p → eval (car O ρ) σ p = .r (x.valD O ρ [])) ∧
+      (∀ nm es, r = .vector nm es → ∀ kp ∈ es, eval (car O ρ) σ kp.2 = .r (x.valD O ρ [kp.1])) ∧
+      (∀ rows, r = .matrix rows → ∀ i j row p, rows[i]? = some row → row[j]? = some p →
+        eval (car O ρ) σ p = .r (x.valD O ρ [.i i, .i j])))
+
+theorem C10_nested_full_of_good (c : Cfg) (h : c.reindexAll = true) : C10_nested_full c := by
+  intro R _ O ρ σ tm x
+  refine ⟨fun idx p ha hp => ?_, fun p ha hd hp => ?_, fun r hr => ?_⟩
+  · rw [termI_good c h] at hp; exact (nested_spec O ρ σ tm x).1 idx p ha hp
+  · rw [termI_good c h] at hp; exact (nested_spec O ρ σ tm x).2 p ha hd hp
+  · rw [expandEC_good c h] at hr; exact expandE_spec O ρ σ tm x r hr
+
+variable (O : Ops R) (ρ : String → R) (σ : Nat → V R)
+
+theorem mat_path (A : String) (m n i j : Nat) (hi : i < m) (hj : j < n) :
+    (Elem.mat A m n).path [.i i, .i j] = some [.i i, .i j] := by
+  have ha := mat_arrayed A m n (by omega)
+  simp only [Elem.path, ha, if_true]
+  simp [Elem.mat, findKey_range, hi, hj, rangeKeys_isEmpty]; omega
+
+theorem vec_path (A : String) (m i : Nat) (hi : i < m) : (Elem.vec A m).path [.i i] = some [.i i] := by
+  have ha := vec_arrayed A m (by omega)
+  simp only [Elem.path, ha, if_true]
+  simp [Elem.vec, findKey_range, hi]
+
+/-- the entry matrix of an indexed matrix element is `valM` -/
+theorem matD_el (A : String) (m n : Nat) : (Ex.el (Elem.mat A m n)).matD O ρ m n = valM ρ A m n := by
+  funext i j
+  have hm : 0 < m := Fin.pos i
+  simp only [Ex.matD, Ex.valD, Elem.valAt, mat_arrayed A m n hm, if_true, mat_path A m n i j i.isLt j.isLt, valM]
+  rfl
+
+theorem vecD_el (v : String) (m : Nat) : (Ex.el (Elem.vec v m)).vecD O ρ m = valV ρ v m := by
+  funext i
+  have hm : 0 < m := Fin.pos i
+  simp only [Ex.vecD, Ex.valD, Elem.valAt, vec_arrayed v m hm, if_true, vec_path v m i i.isLt, valV]
+  rfl
+
+theorem el_mat_dims (A : String) (m n : Nat) (hm : 0 < m) : (Ex.el (Elem.mat A m n)).dims = some (.d2 m n) := by
+  have := mat_dims A m n hm
+  simpa [Ex.dims, Operand.dims] using this
+
+/-- `dot(A, f(u, w))[i] = Σ_k A[i][k] * f(u[k], w[k])` — matrix · (element-wise expression of two vector-valued
+operand trees), all sizes, all trees `u`, `w`: the text produced for result entry `i` evaluates to the
+matrix–vector product of `A` with the entry-wise `f` of the operands' entries -/
+theorem dot_mv_ew (tm : Py) (A : String) (m n : Nat) (hn : n ≠ 0) (o : EwOp) (u w : Ex)
+    (hu : u.dims = some (.d2 n 0)) (hw : w.dims = some (.d2 n 0)) (i : Fin m) (p : Py)
+    (h : (Ex.op .dot (.el (.mat A m n)) (.op (.ew o) u w)).term tm (some [.i i]) = some p) :
+    eval (car O ρ) σ p = .r (Matrix.mulVec (valM ρ A m n)
+      (fun k : Fin n => ewVal O o (u.valD O ρ [.i k]) (w.valD O ρ [.i k])) i) := by
+  rw [(nested_spec O ρ σ tm (Ex.op .dot (.el (.mat A m n)) (.op (.ew o) u w))).1 [.i i] p rfl h]
+  have hB : (Ex.op (.ew o) u w).dims = some (.d2 n 0) := by simp [Ex.dims, hu, hw, resolveEwD]
+  rw [valD_dot_mv O ρ _ _ m n (.d2 n 0) hn rfl (el_mat_dims A m n (Fin.pos i)) hB i, matD_el]
+  rfl
+
+/-- matrix · (matrix-valued element-wise expression): `dot(A, f(U, W))[i][j] = Σ_k A[i][k] * f(U[k][j], W[k][j])` -/
+theorem dot_mm_ew (tm : Py) (A : String) (m n q : Nat) (hn : n ≠ 0) (hq : q ≠ 0) (o : EwOp) (u w : Ex)
+    (hu : u.dims = some (.d2 n q)) (hw : w.dims = some (.d2 n q)) (i : Fin m) (j : Fin q) (p : Py)
+    (h : (Ex.op .dot (.el (.mat A m n)) (.op (.ew o) u w)).term tm (some [.i i, .i j]) = some p) :
+    eval (car O ρ) σ p = .r ((valM ρ A m n *
+      (Matrix.of fun (k : Fin n) (l : Fin q) => ewVal O o (u.valD O ρ [.i k, .i l]) (w.valD O ρ [.i k, .i l]))) i j) := by
+  rw [(nested_spec O ρ σ tm (Ex.op .dot (.el (.mat A m n)) (.op (.ew o) u w))).1 [.i i, .i j] p rfl h]
+  have hB : (Ex.op (.ew o) u w).dims = some (.d2 n q) := by simp [Ex.dims, hu, hw, resolveEwD]
+  rw [valD_dot_mm O ρ _ _ m n q hn hq (el_mat_dims A m n (Fin.pos i)) hB i j, matD_el]
+  rfl
+
+/-- dot ∘ dot: `A.dot(B.dot(x))[i] = (A *ᵥ (B *ᵥ x))[i]` for any vector-valued operand tree `x` -/
+theorem dot_dot_mv (tm : Py) (A B : String) (m n q : Nat) (hn : n ≠ 0) (hq : q ≠ 0) (x : Ex) (d : Dims)
+    (hd : d.isVec = true) (hx : x.dims = some d) (hr : d.rows = q) (i : Fin m) (p : Py)
+    (h : (Ex.op .dot (.el (.mat A m n)) (.op .dot (.el (.mat B n q)) x)).term tm (some [.i i]) = some p) :
+    eval (car O ρ) σ p = .r (Matrix.mulVec (valM ρ A m n) (Matrix.mulVec (valM ρ B n q) (x.vecD O ρ q)) i) := by
+  rw [(nested_spec O ρ σ tm _).1 [.i i] p rfl h]
+  have hdv : d ≠ .val := by intro h'; subst h'; simp [Dims.isVec] at hd
+  have hB : (Ex.op .dot (.el (.mat B n q)) x).dims = some (.d1 n) := by
+    have hnp : 0 < n := Nat.pos_of_ne_zero hn
+    have hBd := el_mat_dims B n q hnp
+    simp only [Ex.dims] at hBd ⊢
+    rw [hBd, hx]
+    have hr' : q = d.rows := hr.symm
+    simp only [resolveDotD, hdv, isVec_d2 n q hq, hd, Dims.snd, ← hr', reduceCtorEq, if_false, Bool.false_eq_true, if_true]
+    simp [Dims.rows]
+  rw [valD_dot_mv O ρ _ _ m n (.d1 n) hn rfl (el_mat_dims A m n (Fin.pos i)) hB i, matD_el]
+  congr 2
+  funext k
+  have hnp : 0 < n := Fin.pos k
+  simp only [Ex.vecD]
+  rw [valD_dot_mv O ρ _ _ n q d hq hd (el_mat_dims B n q hnp) hx k, matD_el]
+
+/-- element-wise ∘ dot: `(c ∘ A.dot(x))[i] = c[i] ∘ (A *ᵥ x)[i]` -/
+theorem ew_dot_mv (tm : Py) (o : EwOp) (cE : Ex) (A : String) (m n : Nat) (hn : n ≠ 0) (x : Ex) (d : Dims)
+    (hd : d.isVec = true) (hx : x.dims = some d) (i : Fin m) (p : Py)
+    (h : (Ex.op (.ew o) cE (.op .dot (.el (.mat A m n)) x)).term tm (some [.i i]) = some p) :
+    eval (car O ρ) σ p = .r (ewVal O o (cE.valD O ρ [.i i]) (Matrix.mulVec (valM ρ A m n) (x.vecD O ρ n) i)) := by
+  rw [(nested_spec O ρ σ tm _).1 [.i i] p rfl h, valD_ew,
+    valD_dot_mv O ρ _ _ m n d hn hd (el_mat_dims A m n (Fin.pos i)) hx i, matD_el]
+
+end SemN
+
+/-! ### the witness: switching `self.index` in place violates it -/
+
+def wOps : Ops Nat := ⟨Nat.sub, Nat.div, id, fun _ => 0, fun _ _ => 0, id⟩
+def wRho (s : String) : Nat := if s == "M[0][1]" || s == "a[1]" then 1 else 0
+/-- `M.dot((a + b) + c)`, M 1×2, a b c of length 2 -/
+def wX : Ex :=
+  .op .dot (.el (.mat "M" 1 2)) (.op (.ew .add) (.op (.ew .add) (.el (.vec "a" 2)) (.el (.vec "b" 2))) (.el (.vec "c" 2)))
+def rOf : V Nat → Option Nat
+  | .r x => some x
+  | _ => none
+
+theorem wX_bad_value :
+    (wX.termI ⟨false⟩ tNow (some [.i 0])).map (fun p => rOf (eval (car wOps wRho) (fun _ => .bad) p)) = some (some 0) := by
+  decide +kernel
+
+theorem wX_good_value :
+    (wX.termI ⟨true⟩ tNow (some [.i 0])).map (fun p => rOf (eval (car wOps wRho) (fun _ => .bad) p)) = some (some 1) := by
+  decide +kernel
+
+theorem wX_numpy : wX.valD wOps wRho [.i 0] = 1 := by decide +kernel
+
+/-- **witness**: when `arrayed_term` only switches the operand's own index (nested operators keep the outer result
+index), `M.dot((a+b)+c)` with M 1×2 evaluates entry 0 to `M[0][0]*((a[0]+b[0])+c[0]) + M[0][1]*((a[0]+b[0])+c[1])`
+— 0 instead of numpy's 1 for `M[0][1] = a[1] = 1`, all other entries 0 -/
+theorem C10_nested_witness (c : Cfg) (h : c.reindexAll = false) : ¬ C10_nested_full c := by
+  cases c with
+  | mk r =>
+    simp only at h; subst h
+    intro hf
+    have h1 := (hf Nat wOps wRho (fun _ => .bad) tNow wX).1 [.i 0]
+    have hb := wX_bad_value
+    cases hp : wX.termI ⟨false⟩ tNow (some [.i 0]) with
+    | none => rw [hp] at hb; simp at hb
+    | some p =>
+      rw [hp] at hb
+      simp only [Option.map_some, Option.some.injEq] at hb
+      have := h1 p rfl hp
+      rw [this, wX_numpy] at hb
+      simp [rOf] at hb
+
 /-! ## C10 at full strength (for the modelled operand kinds) -/
 
 /-- The wave-2 clauses of `C10_full`.  For ALL operand TREES `x` (numbers, elements, operators over such
@@ -2506,13 +2688,16 @@ def C10_full : Prop :=
   (∀ (st : Store) (h : List HOp) (x : RefEx), (runHist st (h ++ [.use x])).2 =
       (runHist st h).2 ++ [.res (expandE tNow (x.resolve (runHist st (h.filter HOp.isSetup)).1))]) ∧
   (∀ (st : Store) (h : List HOp) (g : Agg) (nm : String), (runHist st (h ++ [.agg g nm])).2 =
-      (runHist st h).2 ++ [.term (aggTerm g ((runHist st (h.filter HOp.isSetup)).1.get nm))])
+      (runHist st h).2 ++ [.term (aggTerm g ((runHist st (h.filter HOp.isSetup)).1.get nm))]) ∧
+  -- wave 5: nested equations under the mechanism of the repaired code
+  C10_nested_full ⟨true⟩
 
 theorem C10_full_holds : C10_full := by
   refine ⟨fun f a b r h p hp => ⟨expand_wl f a b r h p hp, expand_parses f a b r h p hp⟩,
     fun g e p h => ⟨aggTerm_wl g e p h, aggTerm_parses g e p h⟩, ?_, ?_, size_spec, dims_spec,
     expand_none_of_resolve, expand_none_of_ctor, matEntries_entry, vecEntries_entry, C10_wave2_holds,
-    runHist_store, use_after_history, agg_after_history⟩
+    runHist_store, use_after_history, agg_after_history,
+    C10_nested_full_of_good ⟨true⟩ rfl⟩
   · intro R _ O ρ σ
     exact ⟨elementwise_spec O ρ σ, nmul_spec O ρ σ, dot_mm O ρ σ, dot_mv O ρ σ, dot_vm O ρ σ, dot_vv O ρ σ,
       fun a b idx p hb ha h => dot_scalar_right O ρ σ a b idx hb ha p h,
@@ -2551,6 +2736,11 @@ example :
 
 #print axioms C10_full_holds
 #print axioms C10_wave2_holds
+#print axioms C10_nested_full_of_good
+#print axioms C10_nested_witness
+#print axioms dot_mv_ew
+#print axioms dot_dot_mv
+#print axioms agg_args_mat
 #print axioms use_after_history
 #print axioms runHist_store
 #print axioms nested_spec
